@@ -10,11 +10,10 @@ of the file `f` given the macros `imported` delivered by its imports; `Static.ch
 program (no imports); `checkWorld cfg w root` includes the import recursion.
 Part NOT proved (explored by harness/props/c10.py): exception classes for arbitrary strings (ANTLR runtime).
 
-Where the pinned code does not do what the property says, the full statement stays visible:
-  * a routine made of calls of label-only macros crashes in strip_last_label (IndexError) before the label check:
-    `error_kinds_documented` and `rejects_jump_undefined` carry the decidable guard `Guard`, with counterexamples;
-  * routines in an imported file are accepted (`routines_in_import_accepted`), rejected only if the second
-    `parser.start()` returned the tree (`rejects_routines_in_import_if_reparsed`).
+History: on the pinned tree two clauses were false (a routine made of calls of label-only macros crashed in
+strip_last_label with IndexError before the label check; routines in an imported file were accepted because the
+macros-only check parsed the exhausted token stream a second time).  Both are repaired in /repo (`fix:` commits, see
+known_findings.jsonl, status fixed); the model follows the repaired code and every theorem below is unguarded.
 -/
 namespace ESV.C10
 open ESV ESV.Static
@@ -22,6 +21,9 @@ open ESV ESV.Static
 /-- the statement `s` is collected in a routine or macro body of `f`, inside a loop iff `l`, inside a switch case
 iff `c` (loops do not reset the case flag, cases do not reset the loop flag, macro bodies start with both off) -/
 def OccursIn (f : File) (l c : Bool) (s : Stmt) : Prop := ∃ b ∈ f.bodies, (l, c, s) ∈ occs b
+
+/-- first routine of a file, `def 0 { body }` -/
+def rt (b : Stmts) : Routine := { id := some 0, body := some b }
 
 theorem rejects_of_collect (cfg : Cfg) (imported : List Macro) (f : File) (l c : Bool) (s : Stmt)
     (ho : OccursIn f l c s) (hf : (collectS ⟨cfg.perfVar, imported ++ f.macros⟩ l c s).ok? = false) :
@@ -237,16 +239,9 @@ theorem labelsBad_of_undefined (ms : List Macro) (f : File) (h : HasUndefinedJum
     subst hs
     exact hnd b' hb' l' c' ho
 
-/-- always rejected (never output) … -/
 theorem rejects_jump_undefined (cfg : Cfg) (imported : List Macro) (f : File) (h : HasUndefinedJump f) :
-    ∃ e, checkLocal cfg imported f false = .error e := by
-  have := checkLocal_fail_of_labels cfg imported f (labelsBad_of_undefined _ f h)
-  exact (ok?_false_iff _).mp this
-
-/-- … with a documented class unless the strip_last_label crash comes first (`Guard`, decidable) -/
-theorem rejects_jump_undefined_partial (cfg : Cfg) (imported : List Macro) (f : File) (g : Guard imported f)
-    (h : HasUndefinedJump f) : ∃ e, checkLocal cfg imported f false = .error e ∧ e ∈ documented :=
-  checkLocal_fail_of_labels_doc cfg imported f g (labelsBad_of_undefined _ f h)
+    ∃ e, checkLocal cfg imported f false = .error e ∧ e ∈ documented :=
+  checkLocal_fail_of_labels cfg imported f (labelsBad_of_undefined _ f h)
 
 /-- the expansion of macro `a` carries, `k` calls deep, a jump to a label the macro holding it does not place -/
 inductive ExpandsBad (ms : List Macro) : Nat → String → Prop
@@ -273,55 +268,57 @@ theorem badMacro_of_expands (ms : List Macro) : ∀ {k a}, ExpandsBad ms k a →
 def HasUndefinedJumpInMacro (imported : List Macro) (f : File) : Prop :=
   ∃ b ∈ f.routineBodies, ∃ a ∈ callsOf b, ∃ k, k ≤ (imported ++ f.macros).length ∧ ExpandsBad (imported ++ f.macros) k a
 
-theorem rejects_jump_undefined_in_macro (cfg : Cfg) (imported : List Macro) (f : File) (g : Guard imported f)
+theorem rejects_jump_undefined_in_macro (cfg : Cfg) (imported : List Macro) (f : File)
     (h : HasUndefinedJumpInMacro imported f) : ∃ e, checkLocal cfg imported f false = .error e ∧ e ∈ documented := by
   obtain ⟨b, hb, a, ha, k, hk, he⟩ := h
-  refine checkLocal_fail_of_labels_doc cfg imported f g ?_
+  refine checkLocal_fail_of_labels cfg imported f ?_
   unfold labelsBad
   simp only [List.any_eq_true, Bool.or_eq_true]
   exact ⟨b, hb, Or.inr ⟨a, ha, badMacro_of_expands _ he _ (by omega)⟩⟩
 
-/-! ## classes -/
-/-- As stated in the property this is FALSE for the pinned code (`error_kinds_counterexample`); it holds under the
-decidable guard excluding routines that consist of calls of label-only macros. -/
-theorem error_kinds_documented_partial (cfg : Cfg) (imported : List Macro) (f : File) (mo : Bool) (g : Guard imported f)
-    (e : ErrKind) (h : checkLocal cfg imported f mo = .error e) : e ∈ documented :=
-  checkLocal_doc_of_guard cfg imported f mo g e h
+/-! ## routine headers (rejection sites added by the repairs of /repo) -/
+/-- some routine is written with a negative id or an id that leaves a gap (ids count up from 0; a coroutine takes the
+previous id + 1), given that the routines before it were accepted: stated on the first routine -/
+theorem rejects_bad_first_routine_id (cfg : Cfg) (imported : List Macro) (f : File) (r : Routine) (rest : List Routine) (i : Int)
+    (hr : f.routines = r :: rest) (hi : r.id = some i) (hbad : i ≠ 0) :
+    ∃ e, checkLocal cfg imported f false = .error e ∧ e ∈ documented := by
+  refine fail_doc (checkLocal_doc cfg imported f false) ?_
+  unfold checkLocal checkRoutines
+  simp [hr, routinesGo, Routine.newId, hi]
+  intros; omega
 
-/-- the only other class the model can produce is the IndexError of strip_last_label -/
-theorem error_kinds (cfg : Cfg) (imported : List Macro) (f : File) (mo : Bool) (e : ErrKind)
-    (h : checkLocal cfg imported f mo = .error e) : e ∈ documented ∨ e = .other "IndexError" := by
-  by_cases g : Guard imported f
-  · exact Or.inl (checkLocal_doc_of_guard cfg imported f mo g e h)
-  · cases mo
-    · unfold checkLocal checkRoutines at h
-      simp only [Bool.false_eq_true, if_false] at h
-      have hd1 := doc_failIf_ssb (macroCycle f.macros)
-      have hd2 := checkBodies_doc ⟨cfg.perfVar, imported ++ f.macros⟩ (f.macros.map fun m => m.body)
-      have hd3 := checkBodies_doc ⟨cfg.perfVar, imported ++ f.macros⟩ f.routineBodies
-      have hd5 := doc_failIf_ssb (labelsBad (imported ++ f.macros) f)
-      revert h
-      generalize failIf (macroCycle f.macros) .ssbCompilerError = r1 at hd1 ⊢
-      generalize checkBodies ⟨cfg.perfVar, imported ++ f.macros⟩ (f.macros.map fun m => m.body) = r2 at hd2 ⊢
-      generalize checkBodies ⟨cfg.perfVar, imported ++ f.macros⟩ f.routineBodies = r3 at hd3 ⊢
-      generalize failIf (labelsBad (imported ++ f.macros) f) .ssbCompilerError = r5 at hd5 ⊢
-      intro h
-      cases r1 with
-      | error e1 => cases h; exact Or.inl (hd1 _ rfl)
-      | ok _ =>
-        cases r2 with
-        | error e2 => cases h; exact Or.inl (hd2 _ rfl)
-        | ok _ =>
-          cases r3 with
-          | error e3 => cases h; exact Or.inl (hd3 _ rfl)
-          | ok _ =>
-            simp only [seq] at h
-            cases hb : List.any f.routineBodies (routineOpsFree (imported ++ f.macros)) with
-            | true => simp [hb, failIf] at h; exact Or.inr h.symm
-            | false =>
-              simp only [hb, failIf, Bool.false_eq_true, if_false] at h
-              exact Or.inl (hd5 _ h)
-    · exact Or.inl (checkLocal_macrosOnly_doc cfg imported f e h)
+/-- a decimal literal as the target of a routine -/
+theorem rejects_fixed_routine_target (cfg : Cfg) (imported : List Macro) (f : File) (r : Routine) (hr : r ∈ f.routines)
+    (hfix : r.fixedTarget = true) : ∃ e, checkLocal cfg imported f false = .error e ∧ e ∈ documented := by
+  refine fail_doc (checkLocal_doc cfg imported f false) ?_
+  have : ∀ (rs : List Routine) (a : Int) (n : Nat), r ∈ rs → (routinesGo ⟨cfg.perfVar, imported ++ f.macros⟩ a n rs).ok? = false := by
+    intro rs
+    induction rs with
+    | nil => intro _ _ h; cases h
+    | cons x rest ih =>
+      intro a n hm
+      rcases List.mem_cons.mp hm with rfl | hm
+      · simp [routinesGo, hfix]
+      · simp [routinesGo, ih _ _ hm]
+  unfold checkLocal checkRoutines
+  simp [this f.routines (-1) 0 hr]
+
+/-! ## classes -/
+/-- the compilation of a file fails with SsbCompilerError or ValueError only (full strength: every file, every set of
+imported macros, both modes) -/
+theorem error_kinds_documented (cfg : Cfg) (imported : List Macro) (f : File) (mo : Bool) (e : ErrKind)
+    (h : checkLocal cfg imported f mo = .error e) : e ∈ documented :=
+  checkLocal_doc cfg imported f mo e h
+
+/-- the same including the import recursion -/
+theorem world_error_kinds_documented (cfg : Cfg) (w : World) (root : String) (e : ErrKind)
+    (h : checkWorld cfg w root = .error e) : e ∈ documented := by
+  unfold checkWorld at h
+  split at h
+  · rename_i e' he'
+    cases h
+    exact checkFile_doc cfg w _ [] root false e he'
+  · cases h
 
 /-! ## the core AST (`Static.check : Src.Program → Except ErrKind Unit`) -/
 theorem check_eq (p : Src.Program) : Static.check p = checkLocal {} [] (ofCore p) false := rfl
@@ -345,11 +342,9 @@ theorem core_rejects_too_few_macro_args (p : Src.Program) (h : HasTooFewArgs [] 
 theorem core_rejects_recursive_macros (p : Src.Program) (h : HasMacroCycle (ofCore p)) :
     ∃ e, Static.check p = .error e ∧ e ∈ documented := rejects_recursive_macros {} [] _ false h
 theorem core_rejects_jump_undefined (p : Src.Program) (h : HasUndefinedJump (ofCore p)) :
-    ∃ e, Static.check p = .error e := rejects_jump_undefined {} [] _ h
-theorem core_rejects_jump_undefined_partial (p : Src.Program) (g : Guard [] (ofCore p)) (h : HasUndefinedJump (ofCore p)) :
-    ∃ e, Static.check p = .error e ∧ e ∈ documented := rejects_jump_undefined_partial {} [] _ g h
-theorem core_error_kinds_documented_partial (p : Src.Program) (g : Guard [] (ofCore p)) (e : ErrKind)
-    (h : Static.check p = .error e) : e ∈ documented := error_kinds_documented_partial {} [] _ false g e h
+    ∃ e, Static.check p = .error e ∧ e ∈ documented := rejects_jump_undefined {} [] _ h
+theorem core_error_kinds_documented (p : Src.Program) (e : ErrKind) (h : Static.check p = .error e) : e ∈ documented :=
+  error_kinds_documented {} [] _ false e h
 
 /-! ## imports -/
 theorem checkWorld_error {cfg : Cfg} {w : World} {root : String} {e : ErrKind}
@@ -386,68 +381,51 @@ theorem rejects_cyclic_import (cfg : Cfg) (w : World) (root : String) (h : HasIm
   obtain ⟨e, he, hd⟩ := checkFile_fail_of_chain cfg w chain (w.length + 1) [] root b false hc (by simpa using hl)
   exact ⟨e, checkWorld_error he, hd⟩
 
-/-- "routines in an imported file": FALSE for the pinned code — `HasRoutinesVisitor().visit(parser.start())` parses
-the consumed token stream again and sees an empty tree, the imported file's routines are silently ignored. -/
-def exWorldRoutinesInImport : World :=
-  [("main.exps", { imports := [some "lib.exps"], routines := [some (.cons (.macroCall "m" 0) .nil)] }),
-   ("lib.exps", { macros := [⟨"m", [], .cons (.op false) .nil⟩], routines := [some (.cons (.op false) .nil)] })]
-
-theorem routines_in_import_accepted :
-    checkWorld { reparseEmpty := true } exWorldRoutinesInImport "main.exps" = .ok () := by decide
-
-/-- with the visitor applied to the file's tree, a macros-only compilation of a file with routines fails -/
-theorem macrosOnly_fails_if_reparsed (cfg : Cfg) (hc : cfg.reparseEmpty = false) (w : World) (s : String) (g : File)
-    (hg : w.get? s = some g) (hs : g.isSsbScript = false) (hr : g.hasRoutines = true) :
+/-- a macros-only compilation (an imported file) of a file with routines, or of a file marked is-ssb-script, fails -/
+theorem macrosOnly_fails_of_routines (cfg : Cfg) (w : World) (s : String) (g : File)
+    (hg : w.get? s = some g) (hr : g.isSsbScript = true ∨ g.hasRoutines = true) :
     ∀ fuel rc, ∃ e, checkFile cfg w fuel rc s true = .error e
   | 0, rc => exists_error_of_doc (checkFile_zero ..)
   | fuel + 1, rc => by
-    simp only [checkFile, hg, hs, Bool.false_eq_true, if_false]
-    split
-    · exact ⟨_, rfl⟩
-    · split
+    simp only [checkFile, hg]
+    cases hs : g.isSsbScript
+    · simp only [Bool.false_eq_true, if_false]
+      have hr' : g.hasRoutines = true := by rcases hr with h | h; simp [hs] at h; exact h
+      split
       · exact ⟨_, rfl⟩
-      · rename_i imported _
-        have : (checkLocal cfg imported g true).ok? = false := by
-          unfold checkLocal; simp [hc, hr]
-        obtain ⟨e, he⟩ := (ok?_false_iff _).mp this
-        simp [he]
+      · split
+        · exact ⟨_, rfl⟩
+        · rename_i imported _
+          obtain ⟨e, he, _⟩ := checkLocal_macrosOnly_fail_of_routines cfg imported g hr'
+          simp [he]
+    · exact ⟨.ssbCompilerError, by simp⟩
 
-theorem rejects_routines_in_import_if_reparsed (cfg : Cfg) (hc : cfg.reparseEmpty = false) (w : World) (root s : String)
-    (g : File) (hi : Imports w root s) (hg : w.get? s = some g) (hs : g.isSsbScript = false) (hr : g.hasRoutines = true) :
+/-- routines in an imported file (resolved import `s` of the compiled file) -/
+theorem rejects_routines_in_import (cfg : Cfg) (w : World) (root s : String)
+    (g : File) (hi : Imports w root s) (hg : w.get? s = some g) (hr : g.hasRoutines = true) :
     ∃ e, checkWorld cfg w root = .error e ∧ e ∈ documented :=
-  rejects_failing_import cfg w root s hi (macrosOnly_fails_if_reparsed cfg hc w s g hg hs hr _ _)
+  rejects_failing_import cfg w root s hi (macrosOnly_fails_of_routines cfg w s g hg (Or.inr hr) _ _)
 
-/-- an imported SsbScript file (attribute `is-ssb-script`) is compiled by the other compiler, routines included,
-and its result dropped: accepted as well -/
+/-- an imported file carrying the is-ssb-script attribute (it consists of routines) -/
+theorem rejects_ssbscript_import (cfg : Cfg) (w : World) (root s : String)
+    (g : File) (hi : Imports w root s) (hg : w.get? s = some g) (hr : g.isSsbScript = true) :
+    ∃ e, checkWorld cfg w root = .error e ∧ e ∈ documented :=
+  rejects_failing_import cfg w root s hi (macrosOnly_fails_of_routines cfg w s g hg (Or.inl hr) _ _)
+
+def exWorldRoutinesInImport : World :=
+  [("main.exps", { imports := [some "lib.exps"], routines := [rt (.cons (.macroCall "m" 0) .nil)] }),
+   ("lib.exps", { macros := [⟨"m", [], .cons (.op false) .nil⟩], routines := [rt (.cons (.op false) .nil)] })]
+
 def exWorldSsbScriptImport : World :=
-  [("main.exps", { imports := [some "lib.exps"], routines := [some (.cons (.op false) .nil)] }),
-   ("lib.exps", { isSsbScript := true, routines := [some (.cons (.op false) .nil)] })]
+  [("main.exps", { imports := [some "lib.exps"], routines := [rt (.cons (.op false) .nil)] }),
+   ("lib.exps", { isSsbScript := true, routines := [rt (.cons (.op false) .nil)] })]
 
-theorem ssbscript_import_accepted (cfg : Cfg) : checkWorld cfg exWorldSsbScriptImport "main.exps" = .ok () := by
-  simp [checkWorld, checkFile, exWorldSsbScriptImport, World.get?, List.lookup, importAll, checkLocal, macroCycle, peelN,
-    checkBodies, checkRoutines, File.routineBodies, bodyCheck, addOkSs, addOkS, collectSs, collectS, routineOpsFree,
-    Stmts.isNil, Stmts.toList, labelsBad, usesOf, callsOf, defsOf, occs, subsSs, subsS, failIf, seq]
-
-/-! ## counterexamples for the guard -/
-/-- `macro m() { @x; }  def 0 { ~m(); }` : IndexError in strip_last_label -/
+/-- a routine made of calls of label-only macros compiles (to an empty routine) since the repair of strip_last_label -/
 def exLabelOnly : Src.Program :=
   { macros := [⟨"m", [], .cons (.label "x") .nil⟩], routines := [⟨some (.cons (.macroCall "m" []) .nil)⟩] }
 
-theorem error_kinds_counterexample :
-    Static.check exLabelOnly = .error (.other "IndexError") ∧ ErrKind.other "IndexError" ∉ documented := by decide
-
-/-- the same routine next to a jump to an undefined label: rejected, but with the undocumented class -/
-def exLabelOnlyUndefined : Src.Program :=
-  { macros := [⟨"m", [], .cons (.label "x") .nil⟩],
-    routines := [⟨some (.cons (.macroCall "m" []) .nil)⟩, ⟨some (.cons (.jump "nowhere") .nil)⟩] }
-
-theorem rejects_jump_undefined_counterexample :
-    HasUndefinedJump (ofCore exLabelOnlyUndefined) ∧ Static.check exLabelOnlyUndefined = .error (.other "IndexError") := by
-  refine ⟨⟨.cons (.jump "nowhere") .nil, by decide, false, false, "nowhere", Or.inl (by decide), ?_⟩, by decide⟩
-  decide
-
 /-! ## non-vacuity: every shape has a witness, and the model rejects it with the class the compiler uses -/
-def file1 (body : Stmts) : File := { routines := [some body] }
+def file1 (body : Stmts) : File := { routines := [rt body] }
 def one (s : Stmt) : Stmts := .cons s .nil
 
 example : HasBreakOutside (file1 (one (.forever (one .brk)))) := ⟨true, _, List.mem_singleton.mpr rfl, by decide⟩
@@ -461,7 +439,7 @@ example : HasBreakLoopOutside (file1 (one (.ite (.cons false [.plain] (one .brkL
   ⟨false, _, List.mem_singleton.mpr rfl, by decide⟩
 -- a macro body starts with empty stacks even when the call sits in a case
 def exMacroBreak : File :=
-  { macros := [⟨"m", [], one .brk⟩], routines := [some (one (.switch (.cons false true false (one (.macroCall "m" 0)) .nil)))] }
+  { macros := [⟨"m", [], one .brk⟩], routines := [rt (one (.switch (.cons false true false (one (.macroCall "m" 0)) .nil)))] }
 example : HasBreakOutside exMacroBreak := ⟨false, one .brk, by decide, by decide⟩
 example : checkLocal {} [] exMacroBreak false = .error .ssbCompilerError := by decide
 def exCasesEmptyEnd : Cases := .cons false true false (one (.op false)) (.cons true true false .nil .nil)
@@ -487,11 +465,11 @@ example : checkLocal { perfVar := "$P" } [] (file1 (one (.ite (.cons false [.pla
     = .error .ssbCompilerError := by decide
 example : HasUnknownMacro [] (file1 (one (.macroCall "nope" 0))) :=
   ⟨false, false, "nope", 0, ⟨_, List.mem_singleton.mpr rfl, by decide⟩, by decide⟩
-def exTooFew : File := { macros := [⟨"m", ["$a", "$b"], one (.op false)⟩], routines := [some (one (.macroCall "m" 1))] }
+def exTooFew : File := { macros := [⟨"m", ["$a", "$b"], one (.op false)⟩], routines := [rt (one (.macroCall "m" 1))] }
 example : HasTooFewArgs [] exTooFew :=
   ⟨false, false, "m", 1, ⟨"m", ["$a", "$b"], one (.op false)⟩, ⟨one (.macroCall "m" 1), by decide, by decide⟩, by decide, by decide⟩
 example : checkLocal {} [] exTooFew false = .error .valueError := by decide
-def exCycle : File := { macros := [⟨"a", [], one (.macroCall "b" 0)⟩, ⟨"b", [], one (.macroCall "a" 0)⟩], routines := [some (one (.op false))] }
+def exCycle : File := { macros := [⟨"a", [], one (.macroCall "b" 0)⟩, ⟨"b", [], one (.macroCall "a" 0)⟩], routines := [rt (one (.op false))] }
 example : HasMacroCycle exCycle := by
   refine ⟨["a", "b"], by simp, ?_⟩
   intro i hi
@@ -501,23 +479,33 @@ example : HasMacroCycle exCycle := by
   · exact ⟨"b", "a", rfl, rfl, by decide, by decide⟩
 example : checkLocal {} [] exCycle false = .error .ssbCompilerError := by decide
 -- a label placed only in a macro body does not serve a routine's jump, and vice versa
-def exMacroLabel : File := { macros := [⟨"m", [], .cons (.label "x") (one (.op false))⟩], routines := [some (.cons (.macroCall "m" 0) (one (.jump "x")))] }
+def exMacroLabel : File := { macros := [⟨"m", [], .cons (.label "x") (one (.op false))⟩], routines := [rt (.cons (.macroCall "m" 0) (one (.jump "x")))] }
 example : HasUndefinedJump exMacroLabel := by
   refine ⟨_, List.mem_singleton.mpr rfl, false, false, "x", Or.inl (by decide), ?_⟩
   decide
 example : checkLocal {} [] exMacroLabel false = .error .ssbCompilerError := by decide
-def exMacroJump : File := { macros := [⟨"m", [], one (.jump "x")⟩], routines := [some (.cons (.macroCall "m" 0) (one (.label "x")))] }
+def exMacroJump : File := { macros := [⟨"m", [], one (.jump "x")⟩], routines := [rt (.cons (.macroCall "m" 0) (one (.label "x")))] }
 example : HasUndefinedJumpInMacro [] exMacroJump :=
   ⟨_, List.mem_singleton.mpr rfl, "m", by decide, 0, by decide, .here (m := ⟨"m", [], one (.jump "x")⟩) (by decide) (by decide)⟩
 example : checkLocal {} [] exMacroJump false = .error .ssbCompilerError := by decide
 -- a macro that is never expanded may hold an unserved jump
-example : checkLocal {} [] { macros := [⟨"m", [], one (.jump "x")⟩], routines := [some (one (.op false))] } false = .ok () := by decide
+example : checkLocal {} [] { macros := [⟨"m", [], one (.jump "x")⟩], routines := [rt (one (.op false))] } false = .ok () := by decide
 def exCycleWorld : World :=
-  [("a", { imports := [some "b"], routines := [some (one (.op false))] }), ("b", { imports := [some "a"] })]
+  [("a", { imports := [some "b"], routines := [rt (one (.op false))] }), ("b", { imports := [some "a"] })]
 example : HasImportCycle exCycleWorld "a" :=
   ⟨"b", ["a"], ⟨⟨_, rfl, rfl, by decide⟩, ⟨_, rfl, rfl, by decide⟩, trivial⟩, by decide⟩
 example : checkWorld {} exCycleWorld "a" = .error .ssbCompilerError := by decide
 example : checkWorld {} [("a", { imports := [some "a"] })] "a" = .error .ssbCompilerError := by decide
-example : checkWorld { reparseEmpty := false } exWorldRoutinesInImport "main.exps" = .error .ssbCompilerError := by decide
+example : checkWorld {} exWorldRoutinesInImport "main.exps" = .error .ssbCompilerError := by decide
+example : checkWorld {} exWorldSsbScriptImport "main.exps" = .error .ssbCompilerError := by decide
+example : checkWorld {} [("main.exps", { isSsbScript := true })] "main.exps" = .ok () := by decide
+example : Static.check exLabelOnly = .ok () := by decide
+-- routine ids: ascending from 0, a coroutine takes the next id; a gap, a negative id or a decimal target is rejected
+example : checkLocal {} [] { routines := [rt (one (.op false)), { id := none, body := some (one (.op false)) }, { id := some 2, body := none }] } false = .ok () := by decide
+example : checkLocal {} [] { routines := [rt (one (.op false)), { id := some 0, body := some (one (.op false)) }] } false = .ok () := by decide
+example : checkLocal {} [] { routines := [{ id := some 1, body := some (one (.op false)) }] } false = .error .ssbCompilerError := by decide
+example : checkLocal {} [] { routines := [rt (one (.op false)), { id := some 2, body := some (one (.op false)) }] } false = .error .ssbCompilerError := by decide
+example : checkLocal {} [] { routines := [{ id := some (-1), body := some (one (.op false)) }] } false = .error .ssbCompilerError := by decide
+example : checkLocal {} [] { routines := [{ id := some 0, fixedTarget := true, body := some (one (.op false)) }] } false = .error .ssbCompilerError := by decide
 
 end ESV.C10
